@@ -325,7 +325,9 @@ class UnitGen:
                  f"while ({c}({e})) {{ {x} = {x} + {self.v()}; }}", f"{x} = -{c}({e});", f"{x} = !{c}({e});", f"{x} = sizeof({c}({e}));",
                  f"{x} = {c}{c}({e});", f"{c}{x} = {e};", f"for ({x} = {c}({e}); {x} < {self.v()}; {x}++) {{ y = y + z; }}",
                  f"for (i = 0; i < {c}({e}); i++) {{ y = y + z; }}", f"do {{ {x} = {c}({e}); }} while ({c}{self.v()} > 0);", f"{x} = ({e});",
-                 f"{x} = {e};", f"{e};", f"assert({c}({e}));", f"{x} = g({c}({e}));"]
+                 f"{x} = {e};", f"{e};", f"assert({c}({e}));", f"{x} = g({c}({e}));",
+                 # increments / decrements as statements whose operand is not a plain identifier (pycparser does not check lvalues)
+                 f"({e})++;", f"--({e});", f"({c}{e})--;", f"++{c}({e});", f"(-{x})++;", f"++{x}++;", f"--(!{x});"]
         return r.choice(forms)
 
     def failing_loop(self):
